@@ -150,6 +150,27 @@ fn around(t: &mut Tape, base: i64) -> i64 {
 /// users entries for actor/target below/equal/above.
 pub fn gen_power_levels(t: &mut Tape, view: &View, actor: &str, malformed_ok: bool) -> J {
     let ap = view.power(actor);
+    // admins often make small edits that keep them admins (so that several admins keep editing
+    // concurrently and power-level events fork and merge)
+    if ap >= 100 && t.chance(1, 2) {
+        if let Some(J::Obj(cur)) = &view.pl {
+            let mut m = cur.clone();
+            if t.chance(1, 2) {
+                let mut evs: BTreeMap<String, J> = m.get("events").and_then(|u| u.as_obj()).cloned().unwrap_or_default();
+                let ty = *t.pick(&["m.room.topic", "m.room.name", "org.x.custom"]);
+                evs.insert(ty.to_string(), J::Int(*t.pick(&[0i64, 10, 25, 50])));
+                m.insert("events".to_string(), J::Obj(evs));
+            } else {
+                let mut users: BTreeMap<String, J> = m.get("users").and_then(|u| u.as_obj()).cloned().unwrap_or_default();
+                let low: Vec<&String> = view.all_users.iter().filter(|u| u.as_str() != actor && view.power(u) < 100).collect();
+                if let Some(who) = if low.is_empty() { None } else { Some((*t.pick(&low)).clone()) } {
+                    users.insert(who, J::Int(*t.pick(&[0i64, 10, 25, 50, 75])));
+                }
+                m.insert("users".to_string(), J::Obj(users));
+            }
+            return J::Obj(m);
+        }
+    }
     let mut m: BTreeMap<String, J> = match (&view.pl, t.chance(3, 4)) {
         (Some(J::Obj(cur)), true) => cur.clone(), // edit the current one
         _ => BTreeMap::new(),
